@@ -466,6 +466,17 @@ pub fn run(o: &mut Out, seed: u64, thorough: bool, replay: Option<Vec<String>>) 
         emit(o, &mut seen, &h);
     }}}
 
+    // 4b. degenerate deep trees: a chain of inserts each placed at the previously inserted leaf (depth = length),
+    //     well past any fixed recursion bound in the code; every key must still have a proof ending in the root
+    for (n, right) in [(66usize, true), (70, false), (130, true)] {
+        let mut h: Vec<Op> = vec![Op::Ins(1, 10, f(0), Loc::Auto)];
+        for i in 1..n { h.push(Op::Ins(i as i64 + 1, 10 + i as i64, f(i as u64), if right { Loc::Right(i as i64) } else { Loc::Left(i as i64) })); }
+        h.push(Op::Hashes);
+        emit(o, &mut seen, &h);
+        let mut h2 = h.clone(); h2.push(Op::Ups(n as i64, 999, f(1000))); h2.push(Op::Del(1)); h2.push(Op::Hashes);
+        emit(o, &mut seen, &h2);
+    }
+
     // 5. random histories, small key space (6 keys, 8 hashes): many short ones, some long
     let n_small = if thorough { 8000 } else { 1000 };
     for i in 0..n_small {
